@@ -150,12 +150,44 @@ func c20One(env *fw.Env, i int64) {
 
 		return false
 	}
+	// cold open (active only): the first dials of OpenBackground are refused, so the initial connect is retried by
+	// the same loop that reconnects later — "positive while a reconnect loop runs" covers it (the gauge is documented
+	// to be held at 1 for that retry), and it must be back at 0 once the link is selected
+	coldOpen := cs.Active && i%4 == 2
+	if coldOpen {
+		const refuse = 4
+		rg.Trk.SetFailDial(func(attempt int) error {
+			if attempt < refuse {
+				if attempt > 0 { // one attempt has already failed: the retry loop is certainly running
+					inStreak.Store(true)
+				}
+
+				return errors.New("harness: dial refused (cold open)")
+			}
+			inStreak.Store(false)
+
+			return nil
+		})
+	}
 	pc, err := rg.Establish(onFrame)
+	inStreak.Store(false)
 	if err != nil {
 		env.Note("establish: %v", err)
 		env.Discard()
 		_ = rg.Shutdown()
 		return
+	}
+	if coldOpen {
+		rg.Trk.SetFailDial(nil)
+		if n := streakSamples.Load(); n > 0 {
+			if z := streakZero.Load(); z > 0 {
+				env.Violate("reconnecting-zero-in-cold-open-retry", fmt.Sprintf("Reconnecting() was <= 0 in %d of %d samples taken while the background Open was retrying refused dials", z, n), cs)
+			} else {
+				env.Event("reconnecting_positive_in_cold_open_retry", 1)
+			}
+		}
+		streakSamples.Store(0)
+		streakZero.Store(0)
 	}
 	closedLib := false
 	defer func() {
